@@ -40,6 +40,7 @@ func init() {
 			{ID: "C12-R11", Title: "http request handlers run under the evaluation's context (shared with C06)", Floor: 2, Run: httpServersFollowTheEvaluation},
 			{ID: "C12-R12", Title: "OS implementations agree on the constants they answer with", Floor: 1, Run: osImplementationsAgreeOnConstants},
 			{ID: "C12-R13", Title: "attribute resolvers keep nothing across contexts", Floor: 1, Run: resolversKeepNothing},
+			{ID: "C12-R14", Title: "the virtual OS does not reach the process", Floor: 1, Run: virtualOSDoesNotReachTheProcess},
 		},
 	})
 }
